@@ -59,7 +59,8 @@ Section Decl.
     match c, k with
     | CDk DkVar, DkVar | CDk DkVarInput, DkVarInput | CDk DkVarOutput, DkVarOutput | CDk DkVarInOut, DkVarInOut
     | CDk DkVarExternal, DkVarExternal | CDk DkEndVar, DkEndVar | CDk DkConstant, DkConstant | CDk DkRetain, DkRetain
-    | CDk DkNonRetain, DkNonRetain | CDk DkREdge, DkREdge | CDk DkFEdge, DkFEdge => true
+    | CDk DkNonRetain, DkNonRetain | CDk DkREdge, DkREdge | CDk DkFEdge, DkFEdge
+    | CDk DkType, DkType | CDk DkEndType, DkEndType | CDk DkArray, DkArray => true
     | _, _ => false
     end.
 
@@ -337,3 +338,236 @@ Section Decl.
         end
     end.
 End Decl.
+
+(* ---- TYPE ... END_TYPE: data type declarations (B.1.3.3).  type_declaration tries, in this order: string types, arrays,
+        subranges with a range, structures, enumerations with a value / by their values, simple types with a constant, and
+        at last  name : name  (resolved later).  The model reads
+          name : ARRAY [ lo..hi , .. ] OF type            name : INT ( lo..hi ) [:= n]
+          name : ( v1 , v2 .. ) [:= v]                    name : base := v     (an enumeration given by another one, with value)
+          name : type := constant                         name : base
+        and answers DScope for the forms it does not read (structures -- STRUCT is outside the token classes --, initial
+        values of arrays, structure initializers). ---- *)
+Inductive tdecl :=
+  | TdArray (name : text) (ranges : list ((bool * N) * (bool * N))) (ty : text)
+  | TdSubrange (name ty : text) (lo hi : bool * N) (default : option (bool * N))
+  | TdEnum (name : text) (values : list text) (default : option text)
+  | TdEnumOf (name base value : text)
+  | TdSimple (name ty : text) (c : sleaf)
+  | TdLate (name base : text).
+
+Section Types.
+  Variable tk : Type.
+  Variable cl : tk -> tcl.
+  Variable txt : tk -> text.
+  Variable num : tk -> N.
+  Variable tyname : tk -> text.
+  Variable is_int : tk -> bool.          (* a signed or unsigned integer type keyword *)
+
+  Notation skip := (StParser.skip tk cl).
+  Notation next_is := (StParser.next_is tk cl).
+  Notation ident := (StParser.ident tk cl txt).
+  Notation signed_int := (StParser.signed_int tk cl num).
+  Notation pconst := (pconst tk cl txt num).
+  Notation names_more := (names_more tk cl txt).
+  Notation next_lp := (next_lp tk cl).
+
+  Definition is_range c := match c with CRange => true | _ => false end.
+  Definition is_lb c := match c with CLB => true | _ => false end.
+  Definition is_of c := match c with CKw KwOf => true | _ => false end.
+
+  (* subrange: signed_integer _ '..' _ signed_integer *)
+  Definition psubrange (ts : list tk) : option (((bool * N) * (bool * N)) * list tk) :=
+    match signed_int ts with
+    | Some (lo, r) =>
+        match next_is is_range r with
+        | Some r1 => match signed_int (skip r1) with
+                     | Some (hi, r2) => Some ((lo, hi), r2)
+                     | None => None
+                     end
+        | None => None
+        end
+    | None => None
+    end.
+
+  (* subrange ** (_ ',' _): the tail after one range *)
+  Fixpoint ranges_more (f : nat) (acc : list ((bool * N) * (bool * N))) (ts : list tk) : D tk (list ((bool * N) * (bool * N))) :=
+    match f with
+    | O => DFuel
+    | S f' =>
+        match next_is is_comma ts with
+        | Some r => match psubrange (skip r) with
+                    | Some (x, r') => ranges_more f' (acc ++ [x]) r'
+                    | None => DOk (acc, ts)
+                    end
+        | None => DOk (acc, ts)
+        end
+    end.
+  Definition ranges (f : nat) (ts : list tk) : D tk (list ((bool * N) * (bool * N))) :=
+    match psubrange ts with
+    | Some (x, r) => ranges_more f [x] r
+    | None => DOk ([], ts)
+    end.
+
+  (* non_generic_type_name *)
+  Definition type_ref (ts : list tk) : option (text * list tk) :=
+    match ts with
+    | t :: r => if is_type (cl t) then Some (tyname t, r)
+                else match cl t with CId => Some (txt t, r) | _ => None end
+    | [] => None
+    end.
+
+  (* after ARRAY: _ '[' _ ranges _ ']' _ OF _ type; an initial value is not read *)
+  Definition array_tail (f : nat) (n : text) (r : list tk) : D tk tdecl :=
+    match next_is is_lb r with
+    | Some r1 =>
+        match ranges f (skip r1) with
+        | DOk (rs, r2) =>
+            match next_is is_rb r2 with
+            | Some r3 =>
+                match next_is is_of r3 with
+                | Some r4 =>
+                    match type_ref (skip r4) with
+                    | Some (ty, r5) => match next_is is_assign r5 with
+                                       | Some _ => DScope
+                                       | None => DOk (TdArray n rs ty, r5)
+                                       end
+                    | None => DFail
+                    end
+                | None => DFail
+                end
+            | None => DFail
+            end
+        | DFail => DFail | DScope => DScope | DFuel => DFuel
+        end
+    | None => DFail
+    end.
+
+  (* integer type keyword t, then '(' : the subrange form or nothing *)
+  Definition subrange_tail (n : text) (t : tk) (r3 : list tk) : D tk tdecl :=
+    match psubrange (skip r3) with
+    | Some ((lo, hi), r4) =>
+        match next_is is_rp r4 with
+        | Some r5 =>
+            match next_is is_assign r5 with
+            | Some r6 => match signed_int (skip r6) with
+                         | Some (d, r7) => DOk (TdSubrange n (tyname t) lo hi (Some d), r7)
+                         | None => DOk (TdSubrange n (tyname t) lo hi None, r5)
+                         end
+            | None => DOk (TdSubrange n (tyname t) lo hi None, r5)
+            end
+        | None => DFail
+        end
+    | None => DFail
+    end.
+
+  (* '(' v1 , v2 .. ')' [:= v] *)
+  Definition enum_tail (f : nat) (n : text) (r : list tk) : D tk tdecl :=
+    match ident (skip r) with
+    | Some (v, r1) =>
+        match names_more f [v] r1 with
+        | DOk (vs, r2) =>
+            match next_is is_rp r2 with
+            | Some r3 =>
+                match next_is is_assign r3 with
+                | Some r4 => match ident (skip r4) with
+                             | Some (d, r5) => DOk (TdEnum n vs (Some d), r5)
+                             | None => DOk (TdEnum n vs None, r3)
+                             end
+                | None => DOk (TdEnum n vs None, r3)
+                end
+            | None => DFail
+            end
+        | DFail => DFail | DScope => DScope | DFuel => DFuel
+        end
+    | None => DFail
+    end.
+
+  Definition type_decl (f : nat) (ts : list tk) : D tk tdecl :=
+    match ident ts with
+    | Some (n, r) =>
+        match next_is is_colon r with
+        | Some r1 =>
+            match skip r1 with
+            | t :: r2 =>
+                if is_dk DkArray (cl t) then array_tail f n r2
+                else if is_type (cl t) then
+                  (if is_int t && next_lp r2 then
+                     match next_is is_lp r2 with Some r3 => subrange_tail n t r3 | None => DFail end
+                   else match next_is is_assign r2 with
+                        | Some r3 => match pconst (skip r3) with
+                                     | Some (c, r4) => DOk (TdSimple n (tyname t) c, r4)
+                                     | None => DFail
+                                     end
+                        | None => DFail
+                        end)
+                else match cl t with
+                     | CLP => enum_tail f n r2
+                     | CId =>
+                         match next_is is_assign r2 with
+                         | Some r3 =>
+                             if next_lp r3 then DScope
+                             else match ident (skip r3) with
+                                  | Some (v, r4) => DOk (TdEnumOf n (txt t) v, r4)
+                                  | None => match pconst (skip r3) with
+                                            | Some (c, r4) => DOk (TdSimple n (txt t) c, r4)
+                                            | None => DOk (TdLate n (txt t), r2)
+                                            end
+                                  end
+                         | None => DOk (TdLate n (txt t), r2)
+                         end
+                     | _ => DFail
+                     end
+            | [] => DFail
+            end
+        | None => DFail
+        end
+    | None => DFail
+    end.
+
+  (* semisep(type_declaration) *)
+  Fixpoint tdecls_more (f : nat) (acc : list tdecl) (ts : list tk) : D tk (list tdecl) :=
+    match f with
+    | O => DFuel
+    | S f' =>
+        match next_is is_semi ts with
+        | Some r => match type_decl f' (skip r) with
+                    | DOk (d, r') => tdecls_more f' (acc ++ [d]) r'
+                    | DFail => DOk (acc, ts)
+                    | DScope => DScope | DFuel => DFuel
+                    end
+        | None => DOk (acc, ts)
+        end
+    end.
+  Definition tsemisep (f : nat) (ts : list tk) : D tk (list tdecl) :=
+    match type_decl f ts with
+    | DOk (d, r) =>
+        match tdecls_more f [d] r with
+        | DOk (l, r1) => match next_is is_semi r1 with
+                         | Some r2 => DOk (l, r2)
+                         | None => DFail
+                         end
+        | DFail => DFail | DScope => DScope | DFuel => DFuel
+        end
+    | DFail => match next_is is_semi ts with
+               | Some r2 => DOk ([], r2)
+               | None => DFail
+               end
+    | DScope => DScope | DFuel => DFuel
+    end.
+
+  (* data_type_declaration: TYPE _ semisep(type_declaration) _ END_TYPE; ts starts at TYPE *)
+  Definition type_block (f : nat) (ts : list tk) : D tk (list tdecl) :=
+    match ts with
+    | t :: r =>
+        if is_dk DkType (cl t) then
+          match tsemisep f (skip r) with
+          | DOk (l, r1) => match next_is (is_dk DkEndType) r1 with
+                           | Some r2 => DOk (l, r2)
+                           | None => DFail
+                           end
+          | DFail => DFail | DScope => DScope | DFuel => DFuel
+          end
+        else DFail
+    | [] => DFail
+    end.
+End Types.
